@@ -787,7 +787,7 @@ case("C17", "C17-D24", "mutant", "historical defect D24 re-introduced: BlobDelet
 
 # sixth round: refactorings aimed at the places the round-6 rules look at
 _CROSS6 = {
-    "C04-b6-2": ["C03", "C07"],
+    "C04-b6-2": ["C03", "C07"], "C03-b6-2": ["C04", "C09"], "C03-b6-3": ["C04", "C09"], "C06-b6-1": ["C07"], "C15-b6-3": ["C04", "C14"],
 }
 for _f in sorted(_glob.glob("/verif/selftest/variants/b6/C*-b6-*.diff")):
     _name = os.path.basename(_f)[:-5]
@@ -799,6 +799,66 @@ for _f in sorted(_glob.glob("/verif/selftest/variants/b6/C*-b6-*.diff")):
         pass
     for _p in [_own] + _CROSS6.get(_name, []):
         case(_p, _p + "-agent-" + _name, "benign", "agent refactoring (round 6) " + _name + ": " + _desc, patch="selftest/variants/b6/" + _name + ".diff")
+
+# ---------------------------------------------------------------- sixth round of seeded changes (generated from the matrix)
+case('C01', "C01-seed10", "mutant", 'seeded (round 6): types/blob/reader.go BReader.ToOCIConfig (the path behind RegClient.BlobGetOCIConfig, ImageConfig, mod, regctl image inspect/confi',
+     patch="seeded/C01-10/patch.diff", expect=[('C01.R8', 'ToOCIConfig', 'chain consumed by ReadAll: EOF comparisons follow')])
+case('C01', "C01-seed11", "mutant", 'seeded (round 6): cmd/regctl/artifact.go runArtifactGet, the per-layer closure of `regctl artifact get --output <dir>`: the two branches (unpack the',
+     patch="seeded/C01-11/patch.diff", expect=[('C01.R13', 'runArtifactGet', 'Copy from a blob reader')])
+case('C02', "C02-seed10", "mutant", 'seeded (round 6): scheme/reg/referrer.go, Reg.referrerListByAPI / Reg.referrerListByAPIPage (the registry schemes client for the OCI referrers API)',
+     patch="seeded/C02-10/patch.diff", expect=[('C02.R9', 'referrerListByAPIPage', 'raw body')])
+case('C02', "C02-seed11", "mutant", 'seeded (round 6): types/docker/schema1/manifest.go, SignedManifest.UnmarshalJSON (the decoder that types/manifest fromCommon and the registry / OCI-',
+     patch="seeded/C02-11/patch.diff", expect=[('C02.R14', 'UnmarshalJSON', 'manifest fields decoded from')])
+case('C03', "C03-seed10", "mutant", 'seeded (round 6): scheme/reg/manifest.go: the key of the registry schemes manifest cache (used by Reg.ManifestGet, ManifestHead, ManifestPut, Manif',
+     patch="seeded/C03-10/patch.diff", expect=[('C03.R12', 'ManifestDelete', 'cacheMan.Delete key')])
+case('C03', "C03-seed11", "mutant", 'seeded (round 6): image.go, imageCopyOpt, the goroutine that copies one index entry: for an entry whose descriptor media type is in neither the list',
+     patch="seeded/C03-11/patch.diff", expect=[('C03.R16', 'imageCopyOpt', 'manifest copy before blob copy')])
+case('C04', "C04-seed10", "mutant", 'seeded (round 6): image.go, imageSeenOrWait (the in-copy dedup table that lets a second goroutine wait for a blob/manifest that another goroutine of',
+     patch="seeded/C04-10/patch.diff", expect=[('C04.R15', 'imageSeenOrWait', "the waiter reports the first copier's result")])
+case('C04', "C04-seed11", "mutant", 'seeded (round 6): types/ref/ref.go, EqualRepository and EqualRegistry: for the ocidir scheme the two helpers no longer compare Ref.Path byte for byt',
+     patch="seeded/C04-11/patch.diff", expect=[('C04.R16', 'EqualRepository', 'compared operands')])
+case('C05', "C05-seed11", "mutant", 'seeded (round 6): scheme/reg/blob.go: the two places that add the digest parameter to the upload location (monolithic PUT in blobPutUploadFull, cl',
+     patch="seeded/C05-11/patch.diff", expect=[('C05.R2', 'blobPutUploadChunked', 'digest parameter from the digester')])
+case('C06', "C06-seed10", "mutant", 'seeded (round 6): scheme/ocidir/ocidir.go updateIndex (called by every ocidir ManifestPut): before calling indexSet it now asks indexGet(index, r) w',
+     patch="seeded/C06-10/patch.diff", expect=[('C06.R13', 'updateIndex', 'index entry set')])
+case('C07', "C07-seed10", "mutant", 'seeded (round 6): scheme/ocidir/tag.go, (*OCIDir).tagDelete (used by TagDelete and by referrerDelete for an emptied referrers list): after the index',
+     patch="seeded/C07-10/patch.diff", expect=[('C07.R11', 'tagDelete', 'Remove')])
+case('C07', "C07-seed11", "mutant", 'seeded (round 6): scheme/ocidir/close.go, (*OCIDir).closeProcManifest (the mark phase of the garbage collection that OCIDir.Close runs on a modified',
+     patch="seeded/C07-11/patch.diff", expect=[('C07.R12', 'closeProcManifest', 'recursion into index entry')])
+case('C08', "C08-seed10", "mutant", 'seeded (round 6): scheme/ocidir/ocidir.go: OCIDir.GCLock and OCIDir.GCUnlock now file the lock count under path.Clean(r.Path) (new helper gcLockPath',
+     patch="seeded/C08-10/patch.diff", expect=[('C08.R12', 'GCLock', 'bookkeeping key')])
+case('C08', "C08-seed11", "mutant", 'seeded (round 6): image.go: RegClient.ImageCopy now takes the GC lock on the target only when source and target are different repositories (isGCLock',
+     patch="seeded/C08-11/patch.diff", expect=[('C08.R1', 'ImageCopy', 'copy only under the GC lock')])
+case('C10', "C10-seed10", "mutant", 'seeded (round 6): scheme/reg/referrer.go, Reg.referrerListByAPI (the loop that follows the Link rel=next header of the referrers API): the loop now ',
+     patch="seeded/C10-10/patch.diff", expect=[('C10.R5', 'referrerListByAPI', 'loop exit')])
+case('C11', "C11-seed11", "mutant", 'seeded (round 6): internal/auth/auth.go bearerHandler.validateResponse() (the function that reads the answer of the token endpoint for both the GET ',
+     patch="seeded/C11-11/patch.diff", expect=[('C11.R13', 'validateResponse', 'slog argument carries bearerToken.Token')])
+case('C12', "C12-seed10", "mutant", 'seeded (round 6): scheme/reg/blob.go BlobPut: after the monolithic PUT of the blob failed and the source reader was rewound, a new branch handles a ',
+     patch="seeded/C12-10/patch.diff", expect=[('C12.R13', 'BlobPut', 'calls itself')])
+case('C12', "C12-seed11", "mutant", 'seeded (round 6): internal/reghttp/http.go Resp.backoffSet: support for the HTTP-date form of the Retry-After header is added (RFC 9110 allows secon',
+     patch="seeded/C12-11/patch.diff", expect=[('C12.R14', 'backoffSet', 'store to backoffLast')])
+case('C14', "C14-seed11", "mutant", 'seeded (round 6): scheme/ocidir/ocidir.go (OCI layout sibling of the registry scheme): OCIDir.readIndex, which every ManifestHead/ManifestGet/Manife',
+     patch="seeded/C14-11/patch.diff", expect=[('C14.R9', 'readIndex', 'index decoded by this call')])
+case('C15', "C15-seed10", "mutant", 'seeded (round 6): types/ref/ref.go: digest validation is delegated to go-digest. The regexp fragment digestS loses its lower bound on the hex part (',
+     patch="seeded/C15-10/patch.diff", expect=[('C15.R2', 'ocidirRE', 'digest hex part')])
+case('C16', "C16-seed10", "mutant", 'seeded (round 6): types/platform/platform.go Parse: the single plat.normalize() call is moved from before the expand short references from the loca',
+     patch="seeded/C16-10/patch.diff", expect=[('C16.R9', 'Parse', 'field compared with another platform')])
+case('C16', "C16-seed11", "mutant", 'seeded (round 6): types/manifest/manifest.go GetPlatformDesc (the package function behind ManifestGet/ManifestHead WithManifestPlatform, ImageCheckB',
+     patch="seeded/C16-11/patch.diff", expect=[('C16.R8', 'GetPlatformDesc', 'list handed to the ranked search')])
+case('C17', "C17-seed11", "mutant", 'seeded (round 6): scheme/ocidir/blob.go: BlobPut no longer does o.throttleGet(r, false) followed by t.Acquire(...) itself but calls a new helper',
+     patch="seeded/C17-11/patch.diff", expect=[('C17.R12', 'throttleAcquire', 'waits for a slot')])
+case('C18', "C18-seed10", "mutant", 'seeded (round 6): cmd/regsync/root.go processRef (plus the matching sentence in docs/regsync.md): the block that resolves the configured `platform` ',
+     patch="seeded/C18-10/patch.diff", expect=[('C18.R13', 'processRef', 'no early success after the backup')])
+case('C18', "C18-seed11", "mutant", 'seeded (round 6): types/tag/taglist.go (*List).Append - the helper scheme/reg TagList uses to merge the pages of a paginated tags/list response (Lin',
+     patch="seeded/C18-11/patch.diff", expect=[('C18.R12', 'Append', 'order-free merge')])
+case('C19', "C19-seed10", "mutant", 'seeded (round 6): Two small edits that each look fine alone. (a) cmd/regbot/sandbox/sandbox.go RunScript (+ new sandbox.ErrCanceled in sandbox/error',
+     patch="seeded/C19-10/patch.diff", expect=[('C19.R3', 'runOnce', 'script loop')])
+case('C19', "C19-seed11", "mutant", 'seeded (round 6): cmd/regbot/sandbox/image.go imageCopy (documented in docs/regbot.md): a usability fix for scripts that stage an image in a local O',
+     patch="seeded/C19-11/patch.diff", expect=[('C19.R1', 'imageCopy', 'ungated call of ImageCopy')])
+case('C20', "C20-seed10", "mutant", 'seeded (round 6): scheme/ocidir/blob.go OCIDir.BlobMount (until now a stub returning ErrUnsupported) is implemented as an optimisation: when source ',
+     patch="seeded/C20-10/patch.diff", expect=[('C20.R1', 'BlobMount', 'os.Link path')])
+case('C20', "C20-seed11", "mutant", 'seeded (round 6): scheme/ocidir/tag.go OCIDir.tagDelete (used by TagDelete and, for the fallback tag of an emptied referrer list, by referrerDelete)',
+     patch="seeded/C20-11/patch.diff", expect=[('C20.R1', 'tagDelete', 'os.Remove path')])
 
 def main():
     bad = 0
